@@ -29,6 +29,8 @@ structure Tcb where
   retxAttempts : Nat := 0
   /-- `persist_ticks` (only touched with `fixPersistProbe`). -/
   persistTicks : Nat := 0
+  /-- `persist_probes` (only touched with `fixPersistBudget`). -/
+  persistProbes : Nat := 0
   deriving DecidableEq, Repr, Inhabited
 
 namespace Tcb
@@ -123,6 +125,11 @@ def oldDup (t : Tcb) (s : Seg) : Bool :=
   s.payload.isEmpty && !s.flags.fin && !s.flags.syn && decide (wsub t.rcvNxt s.seq ≠ 0) &&
     decide (wsub t.rcvNxt s.seq < 2147483648)
 
+/-- Any segment with the ACK flag shows that the peer is alive: the count of unanswered zero-window
+    probes restarts (repair `fixPersistBudget`). -/
+def heard (t : Tcb) (cfg : Cfg) (s : Seg) : Tcb :=
+  if cfg.fixPersistBudget && s.flags.ack then { t with persistProbes := 0 } else t
+
 /-- `handle_established` on the TCB: ACK, data, FIN. Second component: emit an ACK afterwards. -/
 def handleEstablished (cfg : Cfg) (t : Tcb) (s : Seg) : Tcb × Bool :=
   let t1 := t.onAck cfg.fixSndMax s
@@ -162,6 +169,10 @@ def persistCandidate (t : Tcb) : Bool :=
 def probeSeg (recvCap srcPort : Nat) (t : Tcb) : Seg :=
   { srcPort := srcPort, dstPort := t.peer.port, seq := wsub t.sndUna 1, ack := t.rcvNxt,
     flags := { ack := true }, window := advWindow recvCap t.recvBuf.length, payload := [] }
+
+/-- The TCB after a probe went out: the tick counter restarts; with the probe budget the probe is counted. -/
+def probeSent (t : Tcb) (budget : Bool) : Tcb :=
+  { t with persistTicks := 0, persistProbes := if budget then t.persistProbes + 1 else t.persistProbes }
 
 /-- `segment_all`'s candidate filter (tcp.rs:1223-1240). -/
 def segCandidate (t : Tcb) : Bool :=
